@@ -139,6 +139,9 @@ def render_scenario(sc, K):
         return '\n'.join(L) + '\n'
 
     ni = sc['ni']
+    if kind == 'decorated':
+        L.append('_deco_%d = _deco((%d, 1))' % (K, K))
+        L.append('')
     L.append('def make_%d():' % K)
     L.append('    _out = []')
     L.append('    for _i in range(1, %d):' % (ni + 1))
@@ -162,7 +165,7 @@ def render_scenario(sc, K):
         L.append(ind + 'f = C_%d().m' % K)
     else:
         if kind == 'decorated':
-            L.append(ind + '@_deco((%d, 1))' % K)
+            L.append(ind + '@_deco_%d' % K)
         L.append(ind + 'def f(%s):' % sig)
         L += body(ind + '    ')
     L.append(ind + 'def sib(n, val):')
@@ -535,6 +538,7 @@ def process_chunk(task):
             runner = Runner(malt, mod, K, sc)
             out['scenarios'] += 1
             source = render_scenario(sc, K)
+            conv_failed = None
             for steps in behs:
                 # 1. validate the specification's model of Python on the unconverted function
                 try:
@@ -544,18 +548,22 @@ def process_chunk(task):
                                             'scenario=%s\nsteps=%s\nsource:\n%s' % (
                                                 p.clause, p.detail, p.info, json.dumps(sc), json.dumps(steps), source))
                     return out
-                # 2. the real pair
+                # 2. the real pair.  Once to_graph() has refused this function, behaviours that need the conversion
+                #    are counted as further occurrences without converting again (a failed conversion is not cached
+                #    by malt and costs ~30 ms each time).
+                if conv_failed is not None and (sc['pre'] or any(st[0] == 'convert' for st in steps)):
+                    out['behaviours'] += 1
+                    out['viol'].append((conv_failed[0], conv_failed[1], None))
+                    continue
                 try:
                     out['steps'] += runner.run(steps, 'real')
                     out['behaviours'] += 1
                 except ConvertFailed as cf:
                     sig, text = classify_convert_failure(runner, cf.exc)
+                    conv_failed = (sig, text)
                     out['behaviours'] += 1
-                    if sig not in seen or len(out['viol']) < 3:
-                        out['viol'].append((sig, text, dict(scenario=sc, steps=steps, source=source,
-                                                            error=str(cf.exc)[:500], full=sig not in seen)))
-                    else:
-                        out['viol'].append((sig, text, None))
+                    out['viol'].append((sig, text, dict(scenario=sc, steps=steps, source=source,
+                                                        error=str(cf.exc)[:500]) if sig not in seen else None))
                     seen.add(sig)
                 except Problem as p:
                     out['behaviours'] += 1
